@@ -127,6 +127,13 @@ def run_traces(res, pid, plan, seed, dump=True, options=None, exe=None, tag="", 
             for op, kind, text in v:
                 stats["viol:" + kind] += 1
                 viols.append((profile, s, path, lines, op, kind, text))
+            for l in out.splitlines():
+                if l.startswith("COV "):      # coverage counters of the harness (summed over the traces; per profile: traces that reached it)
+                    for t in l.split()[1:]:
+                        k, _, val = t.partition("=")
+                        if val.isdigit():
+                            stats["cov:" + k] += int(val)
+                            if int(val) > 0: stats["covtraces:%s:%s" % (k, profile)] += 1
     # model replay of the page dumps
     mism = []; pstats = collections.Counter()
     if dump:
@@ -176,6 +183,9 @@ def run_traces(res, pid, plan, seed, dump=True, options=None, exe=None, tag="", 
     d = res.cov.setdefault("input_distribution", {})
     d["ops" + tag] = dict(opmix); d["alloc_size_classes" + tag] = dict(sizehist); d["profiles" + tag] = {p: n for p, n, _ in plan}
     d["oracle_violations_by_kind" + tag] = {k[5:]: v for k, v in stats.items() if k.startswith("viol:")}
+    if any(k.startswith("cov:") for k in stats):
+        d["harness_coverage" + tag] = {k[4:]: v for k, v in stats.items() if k.startswith("cov:")}
+        d["harness_coverage_traces" + tag] = {k[10:]: v for k, v in stats.items() if k.startswith("covtraces:")}
     for k, v in pstats.items():
         res.cov[k] = res.cov.get(k, 0) + v
     res.cov["distinct_nontrivial"] += len(set(tuple(j[3]) for j in jobs))
